@@ -166,7 +166,7 @@ func (ec *evalCtx) specCall(call *ast.CallExpr) Value {
 		// has(m, k): key present in map
 		need(2)
 		return Select(arg(0).(*MapV).Dom, scalar(arg(1)))
-	case "out", "failed", "ghost":
+	case "out", "tr", "ghost", "evSet", "evStatus", "evWrite", "evError", "evDelegate":
 		return ec.ghostCall(name, call)
 	case "int", "int64", "int32", "uint32", "uint8", "byte", "rune", "uint", "uint64", "string":
 		need(1)
@@ -245,29 +245,36 @@ func (ec *evalCtx) specSelectorCall(call *ast.CallExpr, sel *ast.SelectorExpr) V
 
 func (ec *evalCtx) ghostCall(name string, call *ast.CallExpr) Value {
 	switch name {
-	case "out", "failed":
-		if len(call.Args) != 1 {
-			panic(unsupported("%s expects one argument", name))
+	case "out":
+		return ec.outLval(ec.eval(call.Args[0])).get()
+	case "tr":
+		return ec.traceLval(ec.eval(call.Args[0])).get()
+	case "evSet":
+		return mkEvent(evSetHeader, scalar(ec.eval(call.Args[0])), scalar(ec.eval(call.Args[1])), nil, nil)
+	case "evStatus":
+		return mkEvent(evWriteHeader, nil, nil, scalar(ec.eval(call.Args[0])), nil)
+	case "evWrite":
+		return mkEvent(evWriteBody, scalar(ec.eval(call.Args[0])), nil, nil, nil)
+	case "evError":
+		return mkEvent(evHTTPError, scalar(ec.eval(call.Args[0])), nil, scalar(ec.eval(call.Args[1])), nil)
+	case "evDelegate":
+		v := ec.eval(call.Args[0])
+		var id *Term
+		switch h := v.(type) {
+		case *IfaceV:
+			id = h.Id
+		case *Term:
+			id = h
+		default:
+			panic(unsupported("evDelegate of %T", v))
 		}
-		w := ec.eval(call.Args[0])
-		key := writerKey(ec, w)
-		if v, ok := ec.st.ghost[name+":"+key]; ok {
-			return v
-		}
-		var v Value
-		if name == "out" {
-			v = Var("out0:"+key, SStr)
-		} else {
-			v = Var("failed0:"+key, SBool)
-		}
-		ec.st.ghost[name+":"+key] = v
-		return v
+		return mkEvent(evDelegate, nil, nil, nil, id)
 	case "ghost":
 		id, ok := call.Args[0].(*ast.Ident)
 		if !ok {
 			panic(unsupported("ghost(name)"))
 		}
-		if v, ok := ec.st.ghost[id.Name]; ok {
+		if v, ok := ec.st.ghost["let:"+id.Name]; ok {
 			return v
 		}
 		panic(unsupported("unknown ghost variable %s", id.Name))
